@@ -45,6 +45,12 @@ def evaluate(sdir, checks, tier, run_tests=True, seeds=(0,)):
             p.wait()
             sh(["git", "init", "-q"], cwd=d)
         a = sh(["git", "apply", "--whitespace=nowarn", patch], cwd=patched)
+        if a.returncode != 0:
+            # context lines moved by later repairs of the tree: retry with GNU patch (fuzz 3); recorded in the result
+            a2 = sh(["patch", "-p1", "-F3", "--no-backup-if-mismatch", "-i", patch], cwd=patched)
+            if a2.returncode == 0:
+                a = a2
+                res["patch_applied_with_fuzz"] = True
         res["patch_applies"] = a.returncode == 0
         if a.returncode != 0:
             res["patch_error"] = a.stdout.decode()[-400:]
